@@ -17,10 +17,13 @@
 (*   gen  : Manager.namespaces[2], each a map namespace -> version                          *)
 (*   udir : Manager.users[2], the abstract content (set of triples) a correct directory holds *)
 (*   cdir : Manager.users[2] as the code keeps it: password list per user, and a map           *)
-(*          "user:password" -> namespace whose keys are split again on every ':' when cleared   *)
+(*          key(user, password) -> namespace.  Since fix f8962a4 the key is the pair itself      *)
+(*          (JoinKey = the pair, SplitUser/SplitPw = its fields); before it was the text         *)
+(*          user ":" password, split again on every ':' when a namespace was cleared             *)
 (*   flag : Manager.reloadPrepared                                                           *)
 (*   ReloadNamespacePrepare(cfg): new = copy(gen[idx]); new[n] = cfg; gen[1-idx] = new;       *)
 (*        udir[1-idx] = clone(udir[idx]) rebuilt for n; flag = TRUE                          *)
+(*        (a configuration NewNamespace rejects: error return before any of these assignments) *)
 (*   ReloadNamespaceCommit(n):    CAS(flag, TRUE -> FALSE) else ErrNamespaceNotPrepared;      *)
 (*        idx = 1-idx; gen[idx][n].Init()   -- nil dereference when n is not in that map     *)
 (*   DeleteNamespace(n):          gen[idx][n] absent => nothing; else                         *)
@@ -43,6 +46,7 @@ CONSTANTS
           SplitPw(_),    \*   SplitUser/SplitPw = first and second ':'-separated field of a key (getUserAndPasswordFromKey)
           InitActive,    \* set of initial maps namespace -> version (the namespaces loaded at start)
           Paired,        \* TRUE: every prepare(n) is immediately followed by commit(n) (a well-formed reload)
+          WithBad,       \* TRUE: administrators also submit configurations the proxy rejects (a failing prepare)
           Fixed          \* FALSE: the algorithm as it is in manager.go; TRUE: the proposed repair
 
 
@@ -59,10 +63,10 @@ pvars == <<pactive, plast>>
 ivars == <<idx, gen, udir, cdir, flag, pname>>
 vars  == <<sc, pactive, plast, idx, gen, udir, cdir, flag, pname, last>>
 
-(* Credentials of different namespaces never share a <<user, password>> pair ("passwords     *)
-(* unique per name, as the control plane requires"); user names may be shared.               *)
-ASSUME \A s \in Scenarios : \A n, m \in NS : \A v, w \in Version :
-          n # m => CredOf(s, n, v) \cap CredOf(s, m, w) = {}
+(* A <<user, password>> pair belongs to at most one namespace AT A TIME ("passwords unique per   *)
+(* name, as the control plane requires"): a configuration can only be submitted when none of its  *)
+(* pairs is held by another active namespace (Free).  User names may be shared, and a pair may    *)
+(* move to another namespace once its owner dropped it or was deleted.                            *)
 
 -----------------------------------------------------------------------------------
 (* user directory content *)
@@ -132,6 +136,7 @@ Init == /\ sc \in Scenarios
 (* I-level: outcome of an operation in the current state, then its effect *)
 CommitRefused(n) == ~flag \/ (Fixed /\ pname # n)
 OutOf(o) == CASE o.op = "prepare" -> "ok"
+              [] o.op = "badprepare" -> "fail"   \* NewNamespace rejects the configuration: nothing was assigned yet
               [] o.op = "delete"  -> "ok"
               [] o.op = "commit"  -> IF CommitRefused(o.n) THEN "fail"
                                      ELSE IF gen[1 - idx][o.n] = None THEN "panic" ELSE "ok"
@@ -160,6 +165,7 @@ IDelete(n) ==
          /\ UNCHANGED pname
 
 IStep(o) == CASE o.op = "prepare" -> IPrepare(o.n, o.v)
+              [] o.op = "badprepare" -> UNCHANGED ivars
               [] o.op = "commit"  -> ICommit(o.n)
               [] o.op = "delete"  -> IDelete(o.n)
 
@@ -175,17 +181,23 @@ Do(o) == /\ IStep(o)
                      allowed |-> PAllowed(plast, o, OutOf(o))]
          /\ UNCHANGED sc
 
-Enabled(o) == IF ~Paired THEN TRUE
-              ELSE IF last.op = "prepare" THEN o.op = "commit" /\ o.n = last.n
-              ELSE o.op # "commit"
+Free(n, v) == \A m \in NS \ {n} : pactive[m] = None \/ CredOf(sc, m, pactive[m]) \cap CredOf(sc, n, v) = {}
+
+Enabled(o) == /\ o.op = "prepare" => Free(o.n, o.v)
+              /\ o.op = "badprepare" => WithBad
+              /\ IF ~Paired THEN TRUE
+                 ELSE IF last.op = "prepare" THEN o.op = "commit" /\ o.n = last.n
+                 ELSE o.op # "commit"
 
 Try(o) == Enabled(o) /\ Do(o)
 
 Prepare(n, v) == Try(Op("prepare", n, v))   \* Manager.ReloadNamespacePrepare
+BadPrepare(n) == Try(Op("badprepare", n, None)) \* Manager.ReloadNamespacePrepare with a configuration NewNamespace rejects
 Commit(n)     == Try(Op("commit", n, None)) \* Manager.ReloadNamespaceCommit
 Delete(n)     == Try(Op("delete", n, None)) \* Manager.DeleteNamespace
 
 Next == \/ \E n \in NS, v \in Version : Prepare(n, v)
+        \/ \E n \in NS : BadPrepare(n)
         \/ \E n \in NS : Commit(n)
         \/ \E n \in NS : Delete(n)
 
